@@ -434,6 +434,23 @@ fn id_map(rng: &mut Rng, ids: &[u32], sparse: bool, limit: u32) -> BTreeMap<u32,
     } else {
         (0..n as u32).collect()
     };
+    // chunked containers in the subject use 128 slots per chunk: put the highest id on or next to a chunk boundary
+    if sparse && n > 0 && rng.chance(1, 3) {
+        let b = 128 * rng.range(1, 2) as u32;
+        let top = match rng.below(3) {
+            0 => b - 1,
+            1 => b,
+            _ => b + 1,
+        };
+        let second = if n >= 2 { targets[n - 2] } else { 0 };
+        if top > second || n == 1 {
+            targets[n - 1] = top;
+        }
+        // and sometimes a second id right after the boundary
+        if n >= 3 && rng.chance(1, 2) && targets[n - 3] < b + 2 && b + 2 < targets[n - 1] {
+            targets[n - 2] = b + 2;
+        }
+    }
     rng.shuffle(&mut targets);
     ids.iter().copied().zip(targets).collect()
 }
